@@ -1,0 +1,31 @@
+//go:build verif
+
+package dnsmsg
+
+// Contracts for the deductive checker in /verif (comment-only file, no declarations).
+
+//@ func copyBuf(b []byte) (c pool.Buffer)
+//@   props C01 C02 C20
+//@   modifies nothing
+//@   ensures len(c) == len(b) && fresh(c) && bytesEq(c, 0, b, 0, len(b))
+
+//@ func packByte(b []byte, off int, v byte) (noff int, err error)
+//@   props C01 C02
+//@   requires 0 <= off && off <= len(b)
+//@   modifies b[off:off+1]
+//@   ensures off+1 <= len(b) ==> err == nil && noff == off+1 && b[off] == v
+//@   ensures off+1 >  len(b) ==> err == ErrSmallBuffer && noff == off
+
+//@ func packUint16(b []byte, off int, v uint16) (noff int, err error)
+//@   props C01 C02
+//@   requires 0 <= off && off <= len(b)
+//@   modifies b[off:off+2]
+//@   ensures off+2 <= len(b) ==> err == nil && noff == off+2 && BE16(b, off) == v
+//@   ensures off+2 >  len(b) ==> err == ErrSmallBuffer && noff == off
+
+//@ func unpackUint16Msg(msg []byte, off int) (v uint16, noff int, err error)
+//@   props C01 C02
+//@   requires 0 <= off && off <= len(msg)
+//@   modifies nothing
+//@   ensures len(msg)-off >= 2 ==> err == nil && v == BE16(msg, off) && noff == off+2
+//@   ensures len(msg)-off <  2 ==> err == ErrSmallBuffer
